@@ -265,7 +265,7 @@ func c18Exec(e *c18Env, in c18In) (obs c18Obs) {
 		if ph.Kind == "hold" {
 			go func() { contenders.Wait(); close(othersDone) }()
 		}
-		if !c18Wait(&wg, 40*time.Second) {
+		if !c18Wait(&wg, 25*time.Second) {
 			r.log(c18Hung, 0)
 			return
 		}
@@ -401,8 +401,17 @@ func TestVerifC18Mutex(t *testing.T) {
 		src = "adv"
 	}
 	n := vfN(40)
-	for i := 0; i < n; i++ {
+	stuck := 0
+	for i := 0; i < n && stuck < 3; i++ {
 		in := c18Gen(root.Fork(i), i, adv)
-		out.Emit(vfCase{ID: fmt.Sprintf("%s-mx-%d", src, i), Src: src, Grp: "mx", In: in, Obs: c18Exec(e, in)})
+		obs := c18Exec(e, in)
+		out.Emit(vfCase{ID: fmt.Sprintf("%s-mx-%d", src, i), Src: src, Grp: "mx", In: in, Obs: obs})
+		// a lock that hangs costs a long wait per case: a few such cases are enough evidence
+		for _, ev := range obs.Ev {
+			if ev[0] == c18Hung {
+				stuck++
+				break
+			}
+		}
 	}
 }
